@@ -4,6 +4,7 @@ import PqV.Lemmas.KVarint
 import PqV.Lemmas.KZigzag
 import PqV.Lemmas.KHybrid
 import PqV.Lemmas.KDelta
+import PqV.Lemmas.KPlain
 /-!
 # C11 — primitive codecs agree with the specification on their whole bounded domain
 
@@ -108,7 +109,34 @@ theorem deltaReadBitpacked_refines (buf : List Nat) (hbytes : ∀ b ∈ buf, b <
       = .ok ((List.range n).map (fun i => bitField w i (streamOf buf loc0)), loc0 + (n * w + 7) / 8) :=
   deltaReadBitpacked_ok buf hbytes loc0 w n hw1 hw hbuf
 
+/-- **`read_bitpacked1` (PLAIN booleans, width-1 levels) = specification**: with room for `count`
+    items and the `⌈count/8⌉` bytes present, exactly the first `count` bits of the stream are appended -/
+theorem readBitpacked1_refines (buf : List Nat) (hbytes : ∀ b ∈ buf, b < 256) (ip count : Nat) (o : Out)
+    (hcap : count ≤ o.cap) (hlen : ip + (count + 7) / 8 ≤ buf.length) :
+    readBitpacked1 buf ip count o
+      = .ok ({ items := o.items ++ unpackNat 1 count (streamOf buf ip), cap := o.cap - count }, ip + (count + 7) / 8) :=
+  PqV.Impl.readBitpacked1_refines buf hbytes ip count o hcap hlen
+
+/-- `read_plain_boolean` inverts the specification's boolean packing, whatever follows in the page -/
+theorem readPlainBoolean_roundtrip (bits tail : List Nat) (hb : ∀ v ∈ bits, v < 2) (ht : ∀ b ∈ tail, b < 256) :
+    readPlainBoolean (packLE 1 bits ++ tail) bits.length = .ok bits :=
+  PqV.Impl.readPlainBoolean_roundtrip bits tail hb ht
+
+/-- `unpack_byte_array` inverts `pack_byte_array` (PLAIN BYTE_ARRAY) at any buffer position, for
+    any number of items shorter than 2^31 bytes each -/
+theorem unpackByteArray_roundtrip (items : List (List Nat)) (hl : ∀ it ∈ items, it.length < 2 ^ 31) (pre tail : List Nat) :
+    unpackByteArray (pre ++ packByteArray items ++ tail) pre.length items.length = .ok items :=
+  PqV.Impl.unpackByteArray_roundtrip items hl pre tail
+
+/-- the writer's boolean packing (`convert`: pad, reshape(-1, 8)[:, ::-1], packbits) is the
+    specification's bit packing of the padded values -/
+theorem writerPackBools_is_spec (vals : List Nat) (hb : ∀ v ∈ vals, v < 2) :
+    writerPackBools vals = packLE 1 (vals ++ List.replicate (8 - vals.length % 8) 0) :=
+  writerPackBools_eq vals hb
+
 -- non-vacuity: concrete instances of the hypotheses
+example : unpackByteArray ([9] ++ packByteArray [[1, 2], [], [7]] ++ [0]) 1 3 = .ok [[1, 2], [], [7]] := by decide
+example : readPlainBoolean (packLE 1 [1, 0, 1, 1, 0, 0, 0, 1, 1] ++ [255]) 9 = .ok [1, 0, 1, 1, 0, 0, 0, 1, 1] := by decide +kernel
 example : ∀ r ∈ [Run.rle 3 5, Run.bp [1, 2, 3, 4, 5, 6, 7, 0]], r.wf 3 = true ∧ RunOk r := by
   intro r hr
   simp only [List.mem_cons, List.mem_nil_iff, or_false] at hr
